@@ -427,6 +427,51 @@ func runReportShape(c *core.Ctx) {
 		}
 	})
 	c.Min("sentry.Exception literals", nExc, 2)
+	// the synthetic exception (the Exception built outside the layer loop) is added exactly when no layer produced
+	// one: its construction is dominated by len(<exception list>) == 0
+	inLoop := map[*ssa.BasicBlock]bool{}
+	for _, l := range naturalLoops(fn) {
+		for b := range l.Body {
+			inLoop[b] = true
+		}
+	}
+	nSynth := 0
+	sx.EachInstr(fn, func(in ssa.Instruction) {
+		st, ok := in.(*ssa.Store)
+		if !ok || inLoop[st.Block()] {
+			return
+		}
+		fa, ok := st.Addr.(*ssa.FieldAddr)
+		if !ok || exT == nil || !types.Identical(sx.Deref(fa.X.Type()), exT) || sx.FieldOf(fa).Name() != "Module" {
+			return
+		}
+		nSynth++
+		guarded := false
+		for _, l := range dominatingLits(st.Block()) {
+			bin, isBin := l.V.(*ssa.BinOp)
+			if !isBin {
+				continue
+			}
+			call, isCall := bin.X.(*ssa.Call)
+			k, isK := sx.ConstInt(bin.Y)
+			if !isCall || !isK || k != 0 {
+				continue
+			}
+			if b, isB := call.Call.Value.(*ssa.Builtin); !isB || b.Name() != "len" {
+				continue
+			}
+			sl, isSl := types.Unalias(call.Call.Args[0].Type()).Underlying().(*types.Slice)
+			if !isSl || !types.Identical(sl.Elem(), exT) {
+				continue
+			}
+			if (bin.Op == token.EQL && !l.Neg) || (bin.Op == token.NEQ && l.Neg) || (bin.Op == token.GTR && l.Neg) {
+				guarded = true
+			}
+		}
+		c.Check(guarded, "report.BuildSentryReport: synthetic exception", st.Pos(), "built only when the list of exceptions is empty (len == 0)",
+			"the synthetic exception is not guarded by 'no exception was collected' (another notion of 'has a stack' decides): trees whose stacks sit below a multi-cause node get a stack-less extra exception besides the real ones")
+	})
+	c.Check(nSynth >= 1, "report.BuildSentryReport: synthetic exception present", fn.Pos(), "an Exception is built outside the layer loop", "the synthetic exception for stack-less errors is no longer built")
 	// message write order: source location, verbose rendering, composition header
 	var order []string
 	for _, b := range fn.DomPreorder() {
@@ -811,6 +856,45 @@ func runGrpcFlow(c *core.Ctx) {
 		}
 		c.Check(okAll, "client: returned error", r.Pos(), "either the decoded error or the invoker's error value itself",
 			"the client returns something other than the decoded error or the invoker's own error (e.g. a status rebuilt from it): pass-through errors change type/identity")
+	}
+	// a decoded error is used unconditionally: no test computed from the decoded error (or from the received status'
+	// code) decides whether it replaces the invoker's error
+	if dec != nil {
+		var condBad string
+		var checkUses func(v ssa.Value, d int)
+		seenU := map[ssa.Value]bool{}
+		checkUses = func(v ssa.Value, d int) {
+			if seenU[v] || d > 6 || v.Referrers() == nil {
+				return
+			}
+			seenU[v] = true
+			for _, r := range *v.Referrers() {
+				ph, ok := r.(*ssa.Phi)
+				if !ok {
+					continue
+				}
+				for i, e := range ph.Edges {
+					if e != v {
+						continue
+					}
+					for _, l := range edgeLits(ph.Block().Preds[i], ph.Block()) {
+						if dependsOnValue(l.V, dec, map[ssa.Value]bool{}, 0) {
+							if bin, isBin := l.V.(*ssa.BinOp); isBin && (sx.IsNil(bin.X) || sx.IsNil(bin.Y)) {
+								continue // a nil test of the decoded error is fine
+							}
+							condBad = "a condition computed from the decoded error"
+						}
+						if dependsOnCall(l.V, "Code", map[ssa.Value]bool{}, 0) {
+							condBad = "the code of the received status"
+						}
+					}
+				}
+				checkUses(ph, d+1)
+			}
+		}
+		checkUses(dec, 0)
+		c.Check(condBad == "", "client: decoded error accepted unconditionally", dec.Pos(), "every decoded EncodedError detail replaces the invoker's error",
+			"whether the decoded error is used depends on "+condBad+": for some errors (e.g. one carrying codes.OK, which travels under status Unknown) the caller gets the bare status error instead of the error the handler returned")
 	}
 	c.Check(sawInvoker && sawDecoded, "client: both outcomes are returned", cli.Pos(), "the decoded error on some path, the invoker's error on another",
 		"the client never returns the decoded error, or never passes the invoker's error through")
